@@ -40,6 +40,8 @@ def opMkFile (w : World) (k : Nat) (name : Bytes) (ver : Nat) (validVersion : Bo
       let m' := { m with files := m.files ++ [f], rootHdr := rootHdr, rootIssued := issued }
       ({ w with models := w.models.set k m', nextFile := w.nextFile + 1, nextId := nid }, s!"ok f{f.id}{extra}")
 
+def sh (r : World × Ans) : World × String := (r.1, r.2.show)
+
 def step (S : Spec) (V : Env) (validVer : Nat → Bool) (w : World) (ws : List String) : Option (World × String) :=
   let E := parseHandle 'e'
   let M := parseHandle 'm'
@@ -51,43 +53,43 @@ def step (S : Spec) (V : Env) (validVer : Nat → Bool) (w : World) (ws : List S
     | some k, some nm, some ver => some (opMkFile w k nm ver (validVer ver))
     | _, _, _ => some (w, "bad-op")
   | ["create", p, n] => match E p, n.toNat? with
-    | some p, some n => some (opCreate S V w p n none) | _, _ => some (w, "bad-op")
+    | some p, some n => some (sh (opCreate S V w p n none)) | _, _ => some (w, "bad-op")
   | ["create", p, n, q] => match E p, n.toNat?, q.toNat? with
-    | some p, some n, some q => some (opCreate S V w p n (some q)) | _, _, _ => some (w, "bad-op")
+    | some p, some n, some q => some (sh (opCreate S V w p n (some q))) | _, _, _ => some (w, "bad-op")
   | ["named", p, n, nm] => match E p, n.toNat?, bytesOfHex nm with
-    | some p, some n, some nm => some (opNamed S V w p n nm none) | _, _, _ => some (w, "bad-op")
+    | some p, some n, some nm => some (sh (opNamed S V w p n nm none)) | _, _, _ => some (w, "bad-op")
   | ["named", p, n, nm, q] => match E p, n.toNat?, bytesOfHex nm, q.toNat? with
-    | some p, some n, some nm, some q => some (opNamed S V w p n nm (some q)) | _, _, _, _ => some (w, "bad-op")
+    | some p, some n, some nm, some q => some (sh (opNamed S V w p n nm (some q))) | _, _, _, _ => some (w, "bad-op")
   | ["remove", p, c] => match E p, E c with
-    | some p, some c => some (opRemove S w p c) | _, _ => some (w, "bad-op")
+    | some p, some c => some (sh (opRemove S w p c)) | _, _ => some (w, "bad-op")
   | ["rename", x, nm] => match E x, bytesOfHex nm with
-    | some x, some nm => some (opRename S V w x nm) | _, _ => some (w, "bad-op")
+    | some x, some nm => some (sh (opRename S V w x nm)) | _, _ => some (w, "bad-op")
   | ["cdata", x, v] => match E x, parseVal v with
-    | some x, some v => some (opCData S V w x v) | _, _ => some (w, "bad-op")
+    | some x, some v => some (sh (opCData S V w x v)) | _, _ => some (w, "bad-op")
   | ["rmcdata", x] => match E x with
-    | some x => some (opRmCData S w x) | none => some (w, "bad-op")
+    | some x => some (sh (opRmCData S w x)) | none => some (w, "bad-op")
   | ["instext", x, q, h] => match E x, q.toNat?, bytesOfHex h with
-    | some x, some q, some b => some (opInsText S w x q b) | _, _, _ => some (w, "bad-op")
+    | some x, some q, some b => some (sh (opInsText S w x q b)) | _, _, _ => some (w, "bad-op")
   | ["rmtext", x, q] => match E x, q.toNat? with
-    | some x, some q => some (opRmText S w x q) | _, _ => some (w, "bad-op")
+    | some x, some q => some (sh (opRmText S w x q)) | _, _ => some (w, "bad-op")
   | ["setref", x, t] => match E x, E t with
-    | some x, some t => some (opSetRef S V w x t) | _, _ => some (w, "bad-op")
+    | some x, some t => some (sh (opSetRef S V w x t)) | _, _ => some (w, "bad-op")
   | ["attr", x, a, v] => match E x, a.toNat?, parseVal v with
-    | some x, some a, some v => some (opAttr S V w x a v) | _, _, _ => some (w, "bad-op")
+    | some x, some a, some v => some (sh (opAttr S V w x a v)) | _, _, _ => some (w, "bad-op")
   | ["attrs", x, a, h] => match E x, a.toNat?, bytesOfHex h with
-    | some x, some a, some b => some (opAttrS S V w x a b) | _, _, _ => some (w, "bad-op")
+    | some x, some a, some b => some (sh (opAttrS S V w x a b)) | _, _, _ => some (w, "bad-op")
   | ["rmattr", x, a] => match E x, a.toNat? with
-    | some x, some a => some (opRmAttr S w x a) | _, _ => some (w, "bad-op")
+    | some x, some a => some (sh (opRmAttr S w x a)) | _, _ => some (w, "bad-op")
   | ["move", p, x] => match E p, E x with
-    | some p, some x => some (opMove S V w p x none) | _, _ => some (w, "bad-op")
+    | some p, some x => some (sh (opMove S V w p x none)) | _, _ => some (w, "bad-op")
   | ["move", p, x, q] => match E p, E x, q.toNat? with
-    | some p, some x, some q => some (opMove S V w p x (some q)) | _, _, _ => some (w, "bad-op")
+    | some p, some x, some q => some (sh (opMove S V w p x (some q))) | _, _, _ => some (w, "bad-op")
   | ["copy", p, x] => match E p, E x with
-    | some p, some x => some (opCopy S V w p x none) | _, _ => some (w, "bad-op")
+    | some p, some x => some (sh (opCopy S V w p x none)) | _, _ => some (w, "bad-op")
   | ["copy", p, x, q] => match E p, E x, q.toNat? with
-    | some p, some x, some q => some (opCopy S V w p x (some q)) | _, _, _ => some (w, "bad-op")
+    | some p, some x, some q => some (sh (opCopy S V w p x (some q))) | _, _, _ => some (w, "bad-op")
   | ["comment", x, h] => match E x with
-    | some x => some (opComment w x (if h == "-" then none else bytesOfHex h)) | none => some (w, "bad-op")
+    | some x => some (sh (opComment w x (if h == "-" then none else bytesOfHex h))) | none => some (w, "bad-op")
   | ["path", x] => (E x).map fun x => (w, qPath S w x)
   | ["parent", x] => (E x).map fun x => (w, qParent w x)
   | ["pos", x] => (E x).map fun x => (w, qPos w x)
